@@ -14,7 +14,10 @@ case (op = "run"):
    "fh": [int] | None, "fhp": [int] | None      horizon given to fit / to predict (relative steps)
    "t0": int                    first index label (contiguous RangeIndex)
    "y": [v], "X": None | [[v]*ncols]*n          v = int | "nan" | "inf" | "-inf"
-   "upd": "no"|"upd"|"refit", "uy": [v], "uX": None | rows     contiguous update batch
+   "upd": "no" | "upd"|"refit" (update, update_params False/True) | "up"|"uprefit" (update_predict),
+   "u0": first label of the batch (t0 <= u0 <= t0+n: re-states stored observations and/or continues them;
+         default t0+n), "uy": [v], "uX": None | rows
+   "dtype": float64|float32|int64|int32 dtype of y, "xdtype": same for X (values are integer-valued)
    "Xp": None | rows}           X passed to predict
 case (op = "swt"): {"op": "swt", "sci": tab|ts, "wl": ..., "fh": [int], "y": [v], "X": None|rows}
    calls `_sliding_window_transform` directly.
@@ -41,6 +44,8 @@ OBLIGATIONS = [
     "SkVerif.C05.returned_step_h_is_output_h",
     "SkVerif.C05.update_extends_observed_series",
     "SkVerif.C05.update_refit_eq_fit",
+    "SkVerif.C05.predict_ignores_data_after_cutoff",
+    "SkVerif.C05.update_predict_restores_cutoff",
     "SkVerif.C05.horizon_order_irrelevant",
 ]
 TRUSTED = [
@@ -55,7 +60,11 @@ TRUSTED = [
 ]
 ASSUMPTIONS = [
     "relative integer horizons and a contiguous integer (RangeIndex) time index; absolute / datetime / period horizons and gapped indices are C02/C03 territory",
-    "update batches continue the index contiguously and carry X exactly when fit did (the driver refuses other shapes)",
+    "update blocks are contiguous and start inside or directly after the stored labels (re-stating and/or continuing them, never leaving a gap) "
+    "and carry X exactly when fit did; update_predict is exercised with its default splitter, without exogenous data (the driver refuses other shapes); "
+    "the frame returned by update_predict is not modelled, only the regressor calls it makes and the state it leaves behind",
+    "y and X are stored as float64, float32, int64 or int32 (integer-valued data); the recording regressor returns half-integers so that a "
+    "feedback buffer of integer or float32 dtype would visibly alter an earlier prediction",
     "a regressor is a deterministic function of (training X, training y, instance); a multi-output regressor returns one output per target column",
     "theorems are stated for finite last windows (the code forecasts NaN otherwise: modelled and compared, not a property clause) and for the "
     "horizon in the increasing order in which ForecastingHorizon stores it (horizon_order_irrelevant covers permutations)",
@@ -64,7 +73,9 @@ ASSUMPTIONS = [
 RULE = ("exhaustive small scope in fixed order: n in 1..12 x window_length 1..4 x every non-empty fh subset of {1..4} x 4 strategies x 2 scitypes x "
         "with/without 2 exogenous columns, plus the transform alone over the same scope with 0/1/2 columns (quick: seed-rotated 1/4 resp. 1/3 slice, "
         "thorough: all); structured random (n up to 200, window up to 14, gapped/contiguous/permuted horizons up to step 8, 0-3 exogenous columns, "
-        "update with/without refit, horizon given at fit and/or predict, NaN/inf/duplicate values, np.int64 window); malformed stream (bad window, bad / "
+        "histories fit -> [update with a continuing OR late/re-stated block that may end before the stored data | update_predict over new or "
+        "overlapping data], each with and without refit -> predict; y/X dtypes float64/float32/int64/int32; horizon given at fit and/or predict, "
+        "NaN/inf/duplicate values, np.int64 window); malformed stream (bad window, bad / "
         "in-sample / duplicate / empty / missing horizon, different horizon at predict, empty and too-short series around the bound, dirrec with X, "
         "missing / broadcastable / mis-shaped future X, refit without horizon); corpus. Distinct by driver line; non-trivial = no error and at least one "
         "regressor.predict call was recorded")
@@ -76,7 +87,8 @@ LEVEL_TEXT = ("Lean 4 theorems, for all series, window lengths, out-of-sample ho
               "prediction input = last window in the training layout, recursive/dirrec feedback of earlier outputs, returned step h = output for step h, "
               "too-short series rejected). The model is tied to /repo's current source by a differential correspondence on every run: recording "
               "regressors capture every fit/predict argument verbatim and the model must reproduce all of them, the forecasts and the error kinds.")
-LEVEL_NOTE = ("Proved for the model: all sixteen obligations, no size bounds. Only observed by correspondence (not proved): that the Python code computes "
+LEVEL_NOTE = ("Proved for the model: all eighteen obligations, no size bounds (incl.: prediction never reads data stored after the cutoff, "
+              "update_predict restores the cutoff). Only observed by correspondence (not proved): that the Python code computes "
               "what the model computes; error kinds of malformed inputs other than the too-short series; numpy broadcasting of a one-row future X; "
               "the NaN forecast for a non-finite last window; scitype inference. Not covered: absolute/datetime horizons, gapped indices, update batches "
               "that overlap or leave gaps, in-sample forecasts (the code raises NotImplementedError), prediction intervals. Trusted: Lean kernel, "
@@ -106,8 +118,8 @@ def _enc(v):
         return 999979
     if v == float("-inf"):
         return 999961
-    if v == int(v):
-        return int(v)
+    if v * 2 == int(v * 2):
+        return int(v * 2)          # half-integers: the Lean driver holds the doubled numerator
     return int(v * 4096) + 5
 
 
@@ -160,9 +172,9 @@ class _RecMixin:
         Xc = np.array(X, dtype=float, copy=True)
         insts = _insts(Xc)
         if self.k_ is None:
-            out = np.array([float(_hi(self.sig_, inst)) for inst in insts])
+            out = np.array([float(_hi(self.sig_, inst)) + 0.5 for inst in insts])
         else:
-            out = np.array([[float(_hi((self.sig_ + 1 + j) % P, inst)) for j in range(self.k_)] for inst in insts])
+            out = np.array([[float(_hi((self.sig_ + 1 + j) % P, inst)) + 0.5 for j in range(self.k_)] for inst in insts])
         log.append(("predict", self.fit_id_, Xc, out.copy()))
         return out
 
@@ -274,16 +286,21 @@ def _fv(v):
     return {"nan": float("nan"), "inf": float("inf"), "-inf": float("-inf")}[v] if isinstance(v, str) else float(v)
 
 
-def _series(vals, t0):
-    return pd.Series([_fv(v) for v in vals], index=pd.RangeIndex(t0, t0 + len(vals)), dtype="float64")
+def _series(vals, t0, dtype="float64"):
+    return pd.Series([_fv(v) for v in vals], index=pd.RangeIndex(t0, t0 + len(vals)), dtype="float64").astype(dtype)
 
 
-def _frame(rows, t0, ncols=None):
+def _frame(rows, t0, ncols=None, dtype="float64"):
     if rows is None:
         return None
     nc = len(rows[0]) if rows else (ncols or 0)
     arr = np.array([[_fv(v) for v in r] for r in rows], dtype="float64").reshape(len(rows), nc)
-    return pd.DataFrame(arr, index=pd.RangeIndex(t0, t0 + len(rows)), columns=["x%d" % i for i in range(nc)])
+    return pd.DataFrame(arr, index=pd.RangeIndex(t0, t0 + len(rows)), columns=["x%d" % i for i in range(nc)]).astype(dtype)
+
+
+def _u0(c):
+    u = c.get("u0")
+    return c["t0"] + len(c["y"]) if u is None else u
 
 
 def _wl_value(w):
@@ -330,9 +347,9 @@ def _rows_tok(rows):
 def to_line(c):
     if c["op"] == "swt":
         return "C05 swt %s %s %s %s %s" % (c["sci"], _wl_tok(c["wl"]), _fh_tok(sorted(c["fh"])), _svals(c["y"]), _rows_tok(c["X"]))
-    return "C05 run %s %s %s %s %s %d %s %s %s %s %s %s" % (
+    return "C05 run %s %s %s %s %s %d %s %s %s %d %s %s %s" % (
         c["strategy"], _sci_expected(c), _wl_tok(c["wl"]), _fh_tok(c["fh"]), _fh_tok(c["fhp"]), c["t0"],
-        _svals(c["y"]), _rows_tok(c["X"]), c["upd"], _svals(c["uy"]), _rows_tok(c["uX"]), _rows_tok(c["Xp"]))
+        _svals(c["y"]), _rows_tok(c["X"]), c["upd"], _u0(c), _svals(c["uy"]), _rows_tok(c["uX"]), _rows_tok(c["Xp"]))
 
 
 # ----------------------------------------------------------------------------- real code
@@ -349,17 +366,21 @@ def run_real(c):
     try:
         reg = _classes()[c["reg"]](log_id=lid)
         n = len(c["y"])
-        y = _series(c["y"], c["t0"])
-        X = _frame(c["X"], c["t0"])
+        dt, xdt = c.get("dtype", "float64"), c.get("xdtype", "float64")
+        y = _series(c["y"], c["t0"], dt)
+        X = _frame(c["X"], c["t0"], dtype=xdt)
         f = make_reduction(reg, strategy=c["strategy"], window_length=_wl_value(c["wl"]), scitype=_SCI_NAME[c["scitype"]])
         f.fit(y, X, fh=None if c["fh"] is None else list(c["fh"]))
         if c["upd"] != "no":
             stage = "update"
-            uy = _series(c["uy"], c["t0"] + n)
-            uX = _frame(c["uX"], c["t0"] + n, ncols=(len(c["X"][0]) if c["X"] else None))
-            f.update(uy, uX, update_params=(c["upd"] == "refit"))
+            uy = _series(c["uy"], _u0(c), dt)
+            uX = _frame(c["uX"], _u0(c), ncols=(len(c["X"][0]) if c["X"] else None), dtype=xdt)
+            if c["upd"] in ("up", "uprefit"):
+                f.update_predict(uy, update_params=(c["upd"] == "uprefit"))
+            else:
+                f.update(uy, uX, update_params=(c["upd"] == "refit"))
         stage = "predict"
-        Xp = _frame(c["Xp"], c["t0"] + n + len(c["uy"] if c["upd"] != "no" else []))
+        Xp = _frame(c["Xp"], int(f.cutoff) + 1, dtype=xdt)
         yp = f.predict(None if c["fhp"] is None else list(c["fhp"]), X=Xp)
         res = "-" if len(yp) == 0 else ",".join("%d:%s" % (int(l), _sv(v)) for l, v in zip(yp.index, yp.values))
     except Exception as e:
@@ -610,8 +631,15 @@ def _classify(c):
         return out
     out["fit"] = "valid"
     stored = c["fh"]
+    u0 = _u0(c)
     if c["upd"] == "no":
         out["update"] = True
+    elif not (c["t0"] <= u0 <= c["t0"] + n):
+        out["update"] = False          # a block that leaves a gap / starts before the stored data: outside the domain
+    elif c["upd"] in ("up", "uprefit"):
+        # update_predict: needs a stored horizon, no exogenous data, and new data long enough for the default splitter
+        out["update"] = (stored is not None and _valid_fh(stored) and c["X"] is None and c["uX"] is None
+                         and len(c["uy"]) >= wl + max(stored))
     elif not c["uy"] and c["uX"] is not None:
         out["update"] = False          # empty batch together with an (empty) X frame: rejected by input validation
     elif c["upd"] == "upd":
@@ -643,8 +671,132 @@ def _classify(c):
     return out
 
 
+def _merge(z, off, block):
+    """new.combine_first(old) for a contiguous block starting `off` positions after the first stored label"""
+    z = [list(r) for r in z]
+    for i, row in enumerate(block):
+        p = off + i
+        if p < len(z):
+            z[p] = [(o if nw == "nan" else nw) for nw, o in zip(row, z[p])]
+        else:
+            z.append(list(row))
+    return z
+
+
+def _check_predict(fails, calls, pos, s, sci, wl, z, m, hs, hs_fit, tr, base, Xp, t0, got):
+    """One predict event.  z[:m] = what has been observed up to the cutoff.  Consumes the regressor.predict
+    calls starting at calls[pos]; returns the new position or None after a failure.
+    got = returned (label, value) pairs, or None when the forecast of this event is not observed."""
+    layout, step_of_call, colperm = tr
+    zc = z[:m]
+    N = m
+    nv = len(z[0])
+    cutoff = t0 + m - 1
+    J = len(hs_fit) if s in ("direct", "dirrec") else 1
+    if got is not None:
+        # one forecast per requested step, labelled cutoff + h
+        if [l for l, _ in got] != [cutoff + h for h in hs]:
+            fails.append(("predict:steps-returned", "labels %r, requested steps %r from cutoff %d" % ([l for l, _ in got], hs, cutoff)))
+            return None
+    val = {l - cutoff: v for l, v in got} if got is not None else None
+    if N < wl or any(_bad(zc[t][0]) for t in range(N - wl, N)):
+        return pos              # no full finite window ends at the cutoff: the statement is silent (code forecasts NaN)
+    want_calls = {"direct": J, "multioutput": 1, "recursive": max(hs), "dirrec": J}[s]
+    pc = calls[pos:pos + want_calls]
+    if len(pc) != want_calls or any(x["k"] != "predict" for x in pc):
+        fails.append(("predict:number-of-regressor-predicts", "expected %d regressor.predict calls for this forecast" % want_calls))
+        return None
+    tag = "2d" if sci == "tab" else "3d"
+    if any(p["tag"] != tag for p in pc):
+        fails.append(("predict:scitype-array-rank", "predict got the wrong array rank for scitype %s" % sci))
+        return None
+    last = _spec_inst(zc, N - wl, wl, nv, sci, layout)
+    if s in ("direct", "multioutput"):
+        for p in pc:
+            if len(p["X"]) != 1 or _key(p["X"][0]) != _key(last):
+                fails.append((s + ".predict:not-last-window", "regressor was fed %s, the last %d values observed up to the cutoff (label %d) are %s" % (
+                    _key(p["X"][0]) if p["X"] else "-", wl, cutoff, _key(last))))
+                return None
+        if s == "direct":
+            by_step = {}
+            for p in pc:
+                ci = p["est"] - base
+                if ci not in step_of_call:
+                    fails.append(("direct.predict:stale-estimator", "predict used estimator of fit call %d" % p["est"]))
+                    return None
+                by_step[step_of_call[ci]] = p["out"]
+            for h in hs:
+                if h not in by_step or len(by_step[h]) != 1:
+                    fails.append(("direct.predict:step-h-not-output-h", "no single output of the step-%d regressor" % h))
+                    return None
+                if val is not None and by_step[h][0] != val[h]:
+                    fails.append(("direct.predict:step-h-not-output-h", "forecast for step %d is %s, the step-%d regressor returned %s" % (
+                        h, val[h], h, by_step.get(h))))
+                    return None
+        else:
+            p = pc[0]
+            if p["est"] != base:
+                fails.append(("multioutput.predict:stale-estimator", "predict used estimator of fit call %d" % p["est"]))
+                return None
+            if len(p["out"]) != len(colperm):
+                fails.append(("multioutput.predict:outputs", "%d outputs for %d steps" % (len(p["out"]), len(colperm))))
+                return None
+            if val is not None:
+                for j, h in enumerate(colperm):
+                    if p["out"][j] != val[h]:
+                        fails.append(("multioutput.predict:step-h-not-output-h", "forecast for step %d is %s, output trained on step-%d targets is %s" % (
+                            h, val[h], h, p["out"][j])))
+                        return None
+    elif s == "recursive":
+        ext = [list(r) for r in zc]
+        outs = []
+        for i, p in enumerate(pc):
+            if p["est"] != base:
+                fails.append(("recursive.predict:stale-estimator", "predict used estimator of fit call %d" % p["est"]))
+                return None
+            want = _spec_inst(ext, N - wl + i, wl, nv, sci, layout)
+            if len(p["X"]) != 1 or _key(p["X"][0]) != _key(want):
+                fails.append(("recursive.predict:" + ("not-last-window" if i == 0 else "feedback-not-newest-lag"),
+                              "step %d: regressor was fed %s, expected %s" % (i + 1, _key(p["X"][0]) if p["X"] else "-", _key(want))))
+                return None
+            if len(p["out"]) != 1:
+                fails.append(("recursive.predict:outputs", "%d outputs" % len(p["out"])))
+                return None
+            outs.append(p["out"][0])
+            ext.append([p["out"][0]] + ([_tok(v) for v in Xp[i]] if Xp is not None else []))
+        if val is not None:
+            for h in hs:
+                if outs[h - 1] != val[h]:
+                    fails.append(("recursive.predict:step-h-not-output-h", "forecast for step %d is %s, the %d-th recursive output is %s" % (h, val[h], h, outs[h - 1])))
+                    return None
+    else:  # dirrec
+        outs = []
+        for i, p in enumerate(pc):
+            ci = p["est"] - base
+            if step_of_call.get(ci) != hs_fit[i]:
+                fails.append(("dirrec.predict:wrong-estimator-for-step", "call %d used estimator of fit call %d" % (i, p["est"])))
+                return None
+            want = [last[0] + outs]
+            if len(p["X"]) != 1 or _key(p["X"][0]) != _key(want):
+                fails.append(("dirrec.predict:" + ("not-last-window" if i == 0 else "feedback-not-newest-lag"),
+                              "call %d: regressor was fed %s, expected %s" % (i, _key(p["X"][0]) if p["X"] else "-", _key(want))))
+                return None
+            if len(p["out"]) != 1:
+                fails.append(("dirrec.predict:outputs", "%d outputs" % len(p["out"])))
+                return None
+            outs.append(p["out"][0])
+        if val is not None:
+            for i, h in enumerate(hs_fit):
+                if outs[i] != val[h]:
+                    fails.append(("dirrec.predict:step-h-not-output-h", "forecast for step %d is %s, its regressor returned %s" % (h, val[h], outs[i])))
+                    return None
+    return pos + want_calls
+
+
 def oracle(c, out):
-    """The property text evaluated on what the REAL code did (recorded calls + returned forecast)."""
+    """The property text evaluated on what the REAL code did (recorded calls + returned forecast), along the
+    history fit -> [update | update_predict] -> predict.  State carried along: the stored series `z`, the number
+    `m` of stored observations up to the cutoff, the latest round of fitted clones."""
     if c["op"] == "swt":
         return _oracle_swt(c, out)
     fails = []
@@ -665,150 +817,79 @@ def oracle(c, out):
     wl = _wl_int(c["wl"])
     hs_fit = [1] if s == "recursive" else sorted(c["fh"])
     J = len(hs_fit) if s in ("direct", "dirrec") else 1
-    fitcalls = [x for x in calls if x["k"] == "fit"]
-    predcalls = [x for x in calls if x["k"] == "predict"]
-    # order: all fit calls of a round come before any predict call
-    first_pred = next((i for i, x in enumerate(calls) if x["k"] == "predict"), len(calls))
-    if any(x["k"] == "fit" for x in calls[first_pred:]):
-        fails.append(("predict:refits-during-predict", "regressor.fit called after a predict call"))
+    pos = 0
+
+    def fit_round(site, z):
+        nonlocal pos
+        fc = calls[pos:pos + J]
+        if len(fc) != J or any(x["k"] != "fit" for x in fc):
+            fails.append((site + ":number-of-regressor-fits", "expected %d regressor.fit calls here" % J))
+            return None
+        tr = _check_training(site, fails, fc, z, wl, hs_fit, s, sci)
+        if tr is None:
+            return None
+        base = sum(1 for x in calls[:pos] if x["k"] == "fit")
+        pos += J
+        return tr, base
+
+    z = _z(c["y"], c["X"])
+    r = fit_round("fit", z)
+    if r is None:
         return fails
-    z1 = _z(c["y"], c["X"])
-    tr = _check_training("fit", fails, fitcalls[:J], z1, wl, hs_fit, s, sci)
-    if tr is None:
-        return fails
-    base = 0
-    zall = z1
+    tr, base = r
+    m = len(z)
+    t0 = c["t0"]
     if c["upd"] != "no":
         if not cl["update"]:
             return fails
         if errstage == "update":
-            fails.append(("update:valid-input-rejected", "update raised %s on valid input" % res["err"]))
+            fails.append(("update:valid-input-rejected", "%s raised %s on valid input" % (
+                "update_predict" if c["upd"] in ("up", "uprefit") else "update", res["err"])))
             return fails
-        X2 = None if c["X"] is None else (c["X"] + (c["uX"] or []))
-        zall = _z(c["y"] + c["uy"], X2)
-        if c["upd"] == "refit":
-            tr2 = _check_training("refit", fails, fitcalls[J:2 * J], zall, wl, hs_fit, s, sci)
-            if tr2 is None:
+        off0 = _u0(c) - t0
+        ublock = _z(c["uy"], c["uX"])
+        refit = c["upd"] in ("refit", "uprefit")
+
+        def upd_event(off, block):
+            nonlocal z, m, tr, base
+            if block:
+                z = _merge(z, off, block)
+                m = off + len(block)
+            if refit:
+                r2 = fit_round("refit", z)
+                if r2 is None:
+                    return False
+                tr, base = r2
+                m = len(z)
+            return True
+
+        if c["upd"] in ("upd", "refit"):
+            if not upd_event(off0, ublock):
                 return fails
-            tr = tr2
-            base = J
-            if len(fitcalls) != 2 * J:
-                fails.append(("refit:number-of-regressor-fits", "%d fit calls in total, expected %d" % (len(fitcalls), 2 * J)))
-                return fails
-        elif len(fitcalls) != J:
-            fails.append(("update:number-of-regressor-fits", "%d fit calls in total, expected %d" % (len(fitcalls), J)))
-            return fails
-    elif len(fitcalls) != J:
-        fails.append(("fit:number-of-regressor-fits", "%d fit calls in total, expected %d" % (len(fitcalls), J)))
-        return fails
+        else:
+            saved = m
+            m = off0                      # cutoff = first new label - 1
+            hs_st = sorted(c["fh"])
+            L = len(ublock)
+            for sp in range(0, L - max(hs_st) + 1):
+                a = max(0, sp - wl)
+                if not upd_event(off0 + a, ublock[a:sp]):
+                    return fails
+                pos2 = _check_predict(fails, calls, pos, s, sci, wl, z, m, hs_st, hs_fit, tr, base, None, t0, None)
+                if pos2 is None:
+                    return fails
+                pos = pos2
+            m = saved                     # the cutoff is restored, the remembered series has grown
     if not cl["predict"]:
         return fails
     if errstage == "predict":
         fails.append(("predict:valid-input-rejected", "predict raised %s on valid input" % res["err"]))
         return fails
-    layout, step_of_call, colperm = tr
-    hs = cl["eff"]
-    N = len(zall)
-    nv = len(zall[0])
-    cutoff = c["t0"] + N - 1
-    got = res["ok"]
-    # ---- one forecast per requested step, labelled cutoff + h
-    if [l for l, _ in got] != [cutoff + h for h in hs]:
-        fails.append(("predict:steps-returned", "labels %r, requested steps %r from cutoff %d" % ([l for l, _ in got], hs, cutoff)))
+    pos2 = _check_predict(fails, calls, pos, s, sci, wl, z, m, cl["eff"], hs_fit, tr, base, c["Xp"], t0, res["ok"])
+    if pos2 is None:
         return fails
-    val = {l - cutoff: v for l, v in got}
-    window_bad = any(_bad(zall[t][0]) for t in range(N - wl, N))
-    if window_bad and not predcalls:
-        return fails            # statement is silent about non-finite windows (code forecasts NaN)
-    tag = "2d" if sci == "tab" else "3d"
-    if any(p["tag"] != tag for p in predcalls):
-        fails.append(("predict:scitype-array-rank", "predict got the wrong array rank for scitype %s" % sci))
-        return fails
-    last = _spec_inst(zall, N - wl, wl, nv, sci, layout)
-    if s in ("direct", "multioutput"):
-        want_calls = J
-        if len(predcalls) != want_calls:
-            fails.append(("predict:number-of-regressor-predicts", "%d predict calls, expected %d" % (len(predcalls), want_calls)))
-            return fails
-        for p in predcalls:
-            if len(p["X"]) != 1 or _key(p["X"][0]) != _key(last):
-                fails.append((s + ".predict:not-last-window", "regressor was fed %s, last %d observations are %s" % (
-                    _key(p["X"][0]) if p["X"] else "-", wl, _key(last))))
-                return fails
-        if s == "direct":
-            by_step = {}
-            for p in predcalls:
-                ci = p["est"] - base
-                if ci not in step_of_call:
-                    fails.append(("direct.predict:stale-estimator", "predict used estimator of fit call %d" % p["est"]))
-                    return fails
-                by_step[step_of_call[ci]] = p["out"]
-            for h in hs:
-                if h not in by_step or len(by_step[h]) != 1 or by_step[h][0] != val[h]:
-                    fails.append(("direct.predict:step-h-not-output-h", "forecast for step %d is %s, the step-%d regressor returned %s" % (
-                        h, val[h], h, by_step.get(h))))
-                    return fails
-        else:
-            p = predcalls[0]
-            if p["est"] != base:
-                fails.append(("multioutput.predict:stale-estimator", "predict used estimator of fit call %d" % p["est"]))
-                return fails
-            if len(p["out"]) != len(colperm):
-                fails.append(("multioutput.predict:outputs", "%d outputs for %d steps" % (len(p["out"]), len(colperm))))
-                return fails
-            for j, h in enumerate(colperm):
-                if p["out"][j] != val[h]:
-                    fails.append(("multioutput.predict:step-h-not-output-h", "forecast for step %d is %s, output trained on step-%d targets is %s" % (
-                        h, val[h], h, p["out"][j])))
-                    return fails
-    elif s == "recursive":
-        hmax = max(hs)
-        if len(predcalls) != hmax:
-            fails.append(("predict:number-of-regressor-predicts", "%d predict calls, expected %d (one per step up to max(fh))" % (len(predcalls), hmax)))
-            return fails
-        ext = [list(r) for r in zall]
-        outs = []
-        for i, p in enumerate(predcalls):
-            if p["est"] != base:
-                fails.append(("recursive.predict:stale-estimator", "predict used estimator of fit call %d" % p["est"]))
-                return fails
-            want = _spec_inst(ext, N - wl + i, wl, nv, sci, layout)
-            if len(p["X"]) != 1 or _key(p["X"][0]) != _key(want):
-                fails.append(("recursive.predict:" + ("not-last-window" if i == 0 else "feedback-not-newest-lag"),
-                              "step %d: regressor was fed %s, expected %s" % (i + 1, _key(p["X"][0]) if p["X"] else "-", _key(want))))
-                return fails
-            if len(p["out"]) != 1:
-                fails.append(("recursive.predict:outputs", "%d outputs" % len(p["out"])))
-                return fails
-            outs.append(p["out"][0])
-            ext.append([p["out"][0]] + ([_tok(v) for v in c["Xp"][i]] if c["Xp"] is not None else []))
-        for h in hs:
-            if outs[h - 1] != val[h]:
-                fails.append(("recursive.predict:step-h-not-output-h", "forecast for step %d is %s, the %d-th recursive output is %s" % (h, val[h], h, outs[h - 1])))
-                return fails
-    else:  # dirrec
-        if len(predcalls) != J:
-            fails.append(("predict:number-of-regressor-predicts", "%d predict calls, expected %d" % (len(predcalls), J)))
-            return fails
-        outs = []
-        for i, p in enumerate(predcalls):
-            ci = p["est"] - base
-            if step_of_call.get(ci) != hs_fit[i]:
-                fails.append(("dirrec.predict:wrong-estimator-for-step", "call %d used estimator of fit call %d" % (i, p["est"])))
-                return fails
-            want = [last[0] + outs]
-            if len(p["X"]) != 1 or _key(p["X"][0]) != _key(want):
-                fails.append(("dirrec.predict:" + ("not-last-window" if i == 0 else "feedback-not-newest-lag"),
-                              "call %d: regressor was fed %s, expected %s" % (i, _key(p["X"][0]) if p["X"] else "-", _key(want))))
-                return fails
-            if len(p["out"]) != 1:
-                fails.append(("dirrec.predict:outputs", "%d outputs" % len(p["out"])))
-                return fails
-            outs.append(p["out"][0])
-        for i, h in enumerate(hs_fit):
-            if outs[i] != val[h]:
-                fails.append(("dirrec.predict:step-h-not-output-h", "forecast for step %d is %s, its regressor returned %s" % (h, val[h], outs[i])))
-                return fails
+    if pos2 != len(calls):
+        fails.append(("history:unexpected-regressor-calls", "%d regressor calls beyond what the history explains" % (len(calls) - pos2)))
     return fails
 
 
@@ -896,25 +977,36 @@ def _mkX(rng, n, nc, base):
     return [pool[i * nc:(i + 1) * nc] for i in range(n)]
 
 
+DTYPES = ["float64", "int64", "float32", "int32"]
+
+
 def _run_case(rng, strategy, n, wl, fh, nc=0, reg=None, scitype=None, t0=None, upd="no", ulen=0, fhp="same", xp="auto",
-              nan_at=None, dup=False):
+              nan_at=None, dup=False, overlap=0, dtype="float64", xdtype="float64"):
+    """overlap = how many stored labels the update block re-states (u0 = t0 + n - overlap)"""
     reg = reg or rng.choice(["tab", "ts"])
     scitype = scitype or rng.choice(["infer", "infer", "tab", "ts"])
-    y = _vals(rng, n + ulen, 1)
-    X = _mkX(rng, n + ulen, nc, 1000)
+    if upd == "no":
+        ulen = 0
+    y = _vals(rng, n, 1)
+    X = _mkX(rng, n, nc, 1000)
+    uy = _vals(rng, ulen, 3000)              # fresh values: a re-stated observation is visibly different
+    uX = _mkX(rng, ulen, nc, 7000) if upd in ("upd", "refit") else None
+    if nc and upd in ("upd", "refit") and uX is None:
+        uX = []
     if dup and n > 2:
         y[rng.randrange(n)] = y[rng.randrange(n)]
     if nan_at is not None:
-        for i, tokv in nan_at:
-            if 0 <= i < len(y):
-                y[i] = tokv
+        for where, i, tokv in nan_at:
+            tgt = y if where == "y" else uy
+            if 0 <= i < len(tgt):
+                tgt[i] = tokv
+        if dtype.startswith("int"):
+            dtype = "float64"
+    t0 = rng.randrange(-20, 40) if t0 is None else t0
+    overlap = min(overlap, n)
     c = {"op": "run", "strategy": strategy, "reg": reg, "scitype": scitype, "wl": wl,
-         "fh": fh, "fhp": (fh if fhp == "same" else fhp), "t0": rng.randrange(-20, 40) if t0 is None else t0,
-         "y": y[:n], "X": None if X is None else X[:n],
-         "upd": upd, "uy": y[n:] if upd != "no" else [], "uX": (None if X is None else X[n:]) if upd != "no" else None, "Xp": None}
-    if upd == "no":
-        c["y"] = y
-        c["X"] = X
+         "fh": fh, "fhp": (fh if fhp == "same" else fhp), "t0": t0, "y": y, "X": X,
+         "upd": upd, "u0": t0 + n - overlap, "uy": uy, "uX": uX, "Xp": None, "dtype": dtype, "xdtype": xdtype}
     if xp == "auto":
         if strategy == "recursive" and nc > 0:
             eff = c["fhp"] if c["fhp"] is not None else fh
@@ -949,7 +1041,8 @@ def gen_cases(tier, rng):
                             reg = "tab" if sci == "tab" else ("ts" if k % 3 else "tsmix")
                             cases.append(_run_case(rng, strategy, n, wl, list(fh), nc=nc, reg=reg,
                                                    scitype=("infer" if k % 2 else sci),
-                                                   fhp=("same" if k % 4 else None)))
+                                                   fhp=("same" if k % 4 else None),
+                                                   dtype=DTYPES[(k // 3) % 4], xdtype=DTYPES[(k // 5) % 4]))
     # ---- (1b) the transform itself, exhaustive small scope
     k = 0
     for n in range(1, 13):
@@ -977,13 +1070,30 @@ def gen_cases(tier, rng):
         if rng.random() < 0.15:
             n = need + rng.choice([0, 0, 1])          # boundary: exactly one / two rows
         nc = 0 if strategy == "dirrec" else rng.choice([0, 0, 1, 2, 3])
-        upd = rng.choice(["no", "no", "upd", "refit"])
-        ulen = 0 if upd == "no" else rng.choice([0, 1, 1, 2, 3, 5, wl, wl + 2])
+        upd = rng.choice(["no", "no", "upd", "upd", "refit", "up", "up"])
+        if upd == "up" and rng.random() < 0.15:
+            upd = "uprefit"
+        if upd in ("up", "uprefit"):
+            nc = 0
+            if upd == "uprefit":
+                n = min(n, 25)
+        overlap = 0
+        if upd == "no":
+            ulen = 0
+        elif upd in ("upd", "refit"):
+            ulen = rng.choice([0, 1, 1, 2, 3, 5, wl, wl + 2])
+            if rng.random() < 0.5:
+                # a late / re-stated block: overlaps what is stored and may END BEFORE the end of it
+                overlap = rng.randrange(1, min(n, wl + 6) + 1)
+                ulen = rng.randrange(1, overlap + 3)
+        else:
+            ulen = wl + hmax + rng.choice([0, 0, 1, 2, 3, 6]) - (1 if rng.random() < 0.05 else 0)
+            overlap = rng.choice([0, 0, 0, 1, 2, wl])
         fhp = "same"
         fhfit = fh
         if strategy == "recursive":
             r = rng.random()
-            if r < 0.25:
+            if r < 0.25 and upd not in ("up", "uprefit"):
                 fhfit, fhp = None, fh
                 if upd == "refit":
                     upd = "upd"
@@ -999,11 +1109,15 @@ def gen_cases(tier, rng):
         if rng.random() < 0.08:
             tokv = rng.choice(["nan", "nan", "inf", "-inf"])
             where = rng.choice(["last", "mid", "upd"])
-            tot = n + ulen
-            i = tot - 1 - rng.randrange(0, wl) if where == "last" else rng.randrange(0, max(1, n - wl))
-            nan_at = [(i, tokv)]
-        c = _run_case(rng, strategy, n, wl, fhfit, nc=nc, upd=upd, ulen=ulen, fhp=fhp, nan_at=nan_at,
-                      dup=rng.random() < 0.1, reg=rng.choice(["tab", "ts", "tsmix"]))
+            if where == "upd" and ulen > 0:
+                nan_at = [("u", rng.randrange(ulen), tokv)]
+            elif where == "last":
+                nan_at = [("y", n - 1 - rng.randrange(0, wl), tokv)]
+            else:
+                nan_at = [("y", rng.randrange(0, max(1, n - wl)), tokv)]
+        c = _run_case(rng, strategy, n, wl, fhfit, nc=nc, upd=upd, ulen=max(ulen, 0), fhp=fhp, nan_at=nan_at,
+                      dup=rng.random() < 0.1, reg=rng.choice(["tab", "ts", "tsmix"]), overlap=overlap,
+                      dtype=rng.choice(DTYPES + ["float64"]), xdtype=rng.choice(DTYPES + ["float64"]))
         if rng.random() < 0.1 and isinstance(c["wl"], int):
             c["wl"] = "np%d" % c["wl"]
         cases.append(c)
@@ -1037,6 +1151,9 @@ def gen_cases(tier, rng):
             cases.append(_run_case(rng, strategy, 9, 2, [1, 3], nc=2, xp=[[7], [8], [9]]))     # wrong number of columns
             cases.append(_run_case(rng, strategy, 9, 2, [1, 3], nc=1, xp=[[7, 8], [9, 10], [11, 12]]))
             cases.append(_run_case(rng, strategy, 9, 2, None if strategy == "recursive" else [1], upd="refit", ulen=2, fhp=[1]))
+            cases.append(_run_case(rng, strategy, 9, 2, None if strategy == "recursive" else [1], upd="up", ulen=5, fhp=[1]))  # update_predict without stored horizon
+            cases.append(_run_case(rng, strategy, 9, 2, [1, 2], upd="up", ulen=3))                  # new data too short for the splitter
+            cases.append(_run_case(rng, strategy, 9, 2, [1, 2], upd="up", ulen=0))                  # empty new data
     for wlbad in (0, "float", "none"):
         cases.append({"op": "swt", "sci": "tab", "wl": wlbad, "fh": [1], "y": _vals(rng, 8), "X": None})
     for fhbad in ([], [0, 1], [-2]):
@@ -1057,11 +1174,14 @@ def shrink(c):
                 yield dict(c, fh=c["fh"][:i] + c["fh"][i + 1:])
         return
     if c["upd"] != "no":
-        yield dict(c, upd="no", uy=[], uX=None, y=c["y"] + c["uy"], X=(None if c["X"] is None else c["X"] + (c["uX"] or [])))
+        yield dict(c, upd="no", uy=[], uX=None, u0=None)
+        if c.get("u0") is not None and c["u0"] < c["t0"] + len(c["y"]):
+            yield dict(c, u0=c["u0"] + 1)
         if len(c["uy"]) > 1:
             yield dict(c, uy=c["uy"][:-1], uX=None if c["uX"] is None else c["uX"][:-1])
     if len(c["y"]) > 1:
-        yield dict(c, y=c["y"][1:], X=None if c["X"] is None else c["X"][1:], t0=c["t0"] + 1)
+        yield dict(c, y=c["y"][1:], X=None if c["X"] is None else c["X"][1:], t0=c["t0"] + 1,
+                   u0=(None if c.get("u0") is None else max(c["u0"], c["t0"] + 1)))
     if c["X"] is not None and c["Xp"] is None:
         yield dict(c, X=None, uX=None)
     if c["X"] is not None and c["X"] and len(c["X"][0]) > 1:
@@ -1079,6 +1199,8 @@ def shrink(c):
                 c2["Xp"] = c2["Xp"][:max(eff)] if eff else c2["Xp"]
             yield c2
     if c["t0"] != 0:
-        yield dict(c, t0=0)
+        yield dict(c, t0=0, u0=(None if c.get("u0") is None else c["u0"] - c["t0"]))
+    if c.get("dtype", "float64") != "float64" or c.get("xdtype", "float64") != "float64":
+        yield dict(c, dtype="float64", xdtype="float64")
     if c["scitype"] == "infer":
         yield dict(c, scitype=_sci_expected(c))
